@@ -175,8 +175,10 @@ theorem copySlot_assoc {n : Int} {s : Seg} (h : AssocOK n s) (i rf : Nat) : Asso
   have h1 : AssocOK n (s.upd i fun si => si.copyFrom (s.get rf)) := h.upd _ _ (h.1 rf)
   split
   · split
-    · exact h1.sameT (child_same _ _ _)
-    · exact h1.sameT (SameT.tr (child_same _ _ _) (SameT.updParent _ _ _))
+    · exact h1.sameT (SameT.updParent _ _ _)
+    · split
+      · exact h1.sameT (child_same _ _ _)
+      · exact h1.sameT (SameT.tr (child_same _ _ _) (SameT.updParent _ _ _))
   · exact h1
 
 theorem unmark_assoc {n : Int} {s : Seg} (h : AssocOK n s) (i : Nat) : AssocOK n (s.unmark i) :=
